@@ -23,6 +23,13 @@ pub struct Failure {
     /// sub-check ("engine") inside the property's check that produced it
     pub engine: String,
     pub case: J,
+    /// NUN_* environment of the worker (configuration is read once per process by nun-db)
+    #[serde(default)]
+    pub env: BTreeMap<String, String>,
+}
+
+pub fn nun_env() -> BTreeMap<String, String> {
+    std::env::vars().filter(|(k, _)| k.starts_with("NUN_")).collect()
 }
 
 #[derive(Serialize, Deserialize, Default, Debug)]
@@ -68,6 +75,8 @@ pub struct Known {
     pub engine: String,
     #[serde(default)]
     pub probe: J,
+    #[serde(default)]
+    pub env: BTreeMap<String, String>,
     #[serde(default)]
     pub commit: String,
 }
@@ -254,6 +263,15 @@ where
     C: std::fmt::Debug + Serialize + Clone,
     S: Strategy<Value = C>,
 {
+    explore_with(ctx, rep, engine, total_cases, 3000, strat, f)
+}
+
+/// `explore` with an explicit bound on shrink iterations (for expensive cases)
+pub fn explore_with<C, S>(ctx: &Ctx, rep: &mut Report, engine: &str, total_cases: u32, max_shrink_iters: u32, strat: S, f: impl Fn(&C) -> Outcome)
+where
+    C: std::fmt::Debug + Serialize + Clone,
+    S: Strategy<Value = C>,
+{
     let cases = ctx.share(total_cases);
     if cases == 0 {
         return;
@@ -263,7 +281,7 @@ where
         cases,
         failure_persistence: None,
         rng_seed: RngSeed::Fixed(seed),
-        max_shrink_iters: 4000,
+        max_shrink_iters,
         max_global_rejects: 1_000_000,
         ..Config::default()
     };
@@ -287,7 +305,7 @@ where
             // re-evaluate the shrunk case to get its own signature/detail
             let out = guarded(ctx, &f, &minimal);
             let (sig, detail) = out.fail.unwrap_or(("shrunk-case-passes".to_string(), "the minimal case did not fail when re-run (flaky?)".to_string()));
-            rep.failures.push(Failure { sig, detail, engine: engine.to_string(), case: serde_json::to_value(&minimal).unwrap() });
+            rep.failures.push(Failure { sig, detail, engine: engine.to_string(), case: serde_json::to_value(&minimal).unwrap(), env: nun_env() });
         }
         Err(TestError::Abort(reason)) => {
             rep.inconclusive.push(format!("{}: proptest aborted: {}", engine, reason));
@@ -311,7 +329,7 @@ where
             continue;
         }
         if let Some((sig, detail)) = eval_filtered(ctx, &repc, &case, &f, true) {
-            repc.borrow_mut().failures.push(Failure { sig, detail, engine: engine.to_string(), case: serde_json::to_value(&case).unwrap() });
+            repc.borrow_mut().failures.push(Failure { sig, detail, engine: engine.to_string(), case: serde_json::to_value(&case).unwrap(), env: nun_env() });
             clean = false;
             break;
         }
